@@ -19,7 +19,12 @@ def _get_story_offsets(all_stories: Optional[List[Element]]) -> Optional[Dict[st
         t = 0
         for story in all_stories:
             story_offsets[story.find('storyID').text] = t
-            t += _get_story_duration(story)
+            duration = _get_story_duration(story)
+            if t is None or duration is None:
+                # offsets after a story of unknown duration are unknown
+                t = None
+            else:
+                t += duration
         return story_offsets
 
 
